@@ -189,7 +189,7 @@ func (commander *Commander) CreateTransaction(ctx context.Context, parameters Pa
 
 func (commander *Commander) SaveMeta(ctx context.Context, parameters Parameters, targetType string, targetID interface{}, m metadata.Metadata) error {
 	execContext := newExecutionContext(commander, parameters, ledger.SetMetadataLogType)
-	_, err := execContext.run(ctx, func(executionContext *executionContext) (*ledger.ChainedLog, chan struct{}, error) {
+	log, err := execContext.run(ctx, func(executionContext *executionContext) (*ledger.ChainedLog, chan struct{}, error) {
 		var (
 			log *ledger.Log
 			at  = ledger.Now()
@@ -225,7 +225,9 @@ func (commander *Commander) SaveMeta(ctx context.Context, parameters Parameters,
 
 	if !parameters.DryRun {
 		verifhook.Yield(ctx, "publish.before")
-		commander.monitor.SavedMetadata(ctx, targetType, fmt.Sprint(targetID), m)
+		// the event describes the entry (which, on an idempotency replay, is the recorded one, not this request's payload)
+		payload := log.Data.(ledger.SetMetadataLogPayload)
+		commander.monitor.SavedMetadata(ctx, payload.TargetType, fmt.Sprint(payload.TargetID), payload.Metadata)
 	}
 	return nil
 }
@@ -301,7 +303,7 @@ func (commander *Commander) nextTXID(dryRun bool) *big.Int {
 
 func (commander *Commander) DeleteMetadata(ctx context.Context, parameters Parameters, targetType string, targetID any, key string) error {
 	execContext := newExecutionContext(commander, parameters, ledger.DeleteMetadataLogType)
-	_, err := execContext.run(ctx, func(executionContext *executionContext) (*ledger.ChainedLog, chan struct{}, error) {
+	log, err := execContext.run(ctx, func(executionContext *executionContext) (*ledger.ChainedLog, chan struct{}, error) {
 		var (
 			log *ledger.Log
 			at  = ledger.Now()
@@ -335,7 +337,9 @@ func (commander *Commander) DeleteMetadata(ctx context.Context, parameters Param
 
 	if !parameters.DryRun {
 		verifhook.Yield(ctx, "publish.before")
-		commander.monitor.DeletedMetadata(ctx, targetType, targetID, key)
+		// the event describes the entry (which, on an idempotency replay, is the recorded one, not this request's payload)
+		payload := log.Data.(ledger.DeleteMetadataLogPayload)
+		commander.monitor.DeletedMetadata(ctx, payload.TargetType, payload.TargetID, payload.Key)
 	}
 
 	return nil
